@@ -695,6 +695,177 @@ def run_history(alpha: Alphabet, seed: int, length: int, kinds=None) -> Sim:
     return sim
 
 
+# ---------------------------------------------------------------- exhaustive
+def menu(nq: int):
+    """A fixed menu of concrete calls on an `nq`-qubit circuit (nq in {2, 3});
+    every sequence over it up to a given length is enumerated."""
+    m = [
+        ('append', 1, [0]), ('append', 6, [0, 1]), ('append', 6, [1, 0]),
+        ('append', 4, [nq - 1]),
+        ('insert', 0, 2, [1]), ('insert', -1, 4, [0]), ('insert', 1, 6, [1, 0]),
+        ('pop', None), ('pop', (0, 0)), ('pop', (-1, nq - 1)),
+        ('replace', (0, 0), 2, [0]), ('replace', (0, 1), 6, [1, 0]),
+        ('replace', (-1, 0), 9, [0, 1]),
+        ('pop_cycle', 0), ('batch_pop', [(0, 0), (0, 1)]),
+        ('insert_circuit', 1, [1, 0]), ('renumber', list(reversed(range(nq)))),
+        ('compress',), ('fold', {0: (0, 1)}), ('unfold', (0, 0)),
+        ('batch_replace', [(0, 0), (-1, 0)]),
+    ]
+    if nq == 3:
+        m += [('append', 10, [2, 0, 1]), ('insert', 0, 6, [2, 0]),
+              ('pop_qudit', 1), ('insert_qudit', 1), ('fold', {1: (0, 1), 2: (0, 2)})]
+    return m
+
+
+def run_menu(alpha: Alphabet, nq: int, seq) -> Sim:
+    from bqskit.ir.circuit import Circuit
+    from bqskit.ir.gates import CircuitGate
+    from bqskit.ir.operation import Operation
+    sim = Sim(alpha, random.Random(0))
+    c = Circuit(nq)
+    sim.record('new ' + ','.join(['2'] * nq), 'ok', c, f'Circuit({nq})')
+    items = menu(nq)
+
+    def mkop(g, loc):
+        gate = alpha.by_gid[g]
+        return Operation(gate, loc, sim.fresh_params(gate.num_params))
+
+    def attempt(line, call, fn, on_ok=lambda r: 'ok'):
+        try:
+            ret = on_ok(fn())
+        except tuple(ERR) as e:
+            ret = ERR[type(e)]
+        except INTERNAL as e:
+            sim.internal_error = (call, repr(e) + '\n'
+                                  + traceback.format_exc()[-1500:])
+            ret = 'internal ' + type(e).__name__
+        sim.record(line, ret, c, call)
+
+    for idx in seq:
+        if sim.internal_error:
+            break
+        it = items[idx]
+        k = it[0]
+        if any(q >= c.num_qudits for x in it[1:] if isinstance(x, list)
+               for q in x if isinstance(q, int)):
+            continue
+        if k == 'append':
+            op = mkop(it[1], it[2])
+            attempt(f'append {sim.op_text(op)}', f'append({op!r})',
+                    lambda: c.append(op), lambda r: f'ok {r}')
+        elif k == 'insert':
+            op = mkop(it[2], it[3])
+            attempt(f'insert {it[1]} {sim.op_text(op)}',
+                    f'insert({it[1]}, {op!r})', lambda: c.insert(it[1], op))
+        elif k == 'pop':
+            if it[1] is None:
+                attempt('pop none', 'pop()', lambda: c.pop(),
+                        lambda r: 'ok ' + sim.op_text(r))
+            else:
+                attempt(f'pop {it[1][0]} {it[1][1]}', f'pop({it[1]})',
+                        lambda: c.pop(it[1]), lambda r: 'ok ' + sim.op_text(r))
+        elif k == 'replace':
+            op = mkop(it[2], it[3])
+            attempt(f'replace {it[1][0]} {it[1][1]} {sim.op_text(op)}',
+                    f'replace({it[1]}, {op!r})', lambda: c.replace(it[1], op))
+        elif k == 'batch_replace':
+            ops = []
+            ok = True
+            for p in it[1]:
+                try:
+                    old = c[p]
+                    ops.append(Operation(alpha.by_gid[2 if old.num_qudits == 1
+                                                      else 7]
+                                         if old.num_qudits <= 2 else old.gate,
+                                         old.location, []))
+                except (IndexError, TypeError):
+                    ok = False
+            if not ok or len({id(c[p]) for p in it[1]}) != len(it[1]):
+                continue
+            attempt('batch_replace ' + ' '.join(
+                f'{p[0]} {p[1]} {sim.op_text(o)}' for p, o in zip(it[1], ops)),
+                f'batch_replace({it[1]}, {ops!r})',
+                lambda: c.batch_replace(it[1], ops))
+        elif k == 'pop_cycle':
+            attempt(f'pop_cycle {it[1]}', f'pop_cycle({it[1]})',
+                    lambda: c.pop_cycle(it[1]))
+        elif k == 'batch_pop':
+            attempt('batch_pop ' + ' '.join(f'{a} {b}' for a, b in it[1]),
+                    f'batch_pop({it[1]})', lambda: c.batch_pop(it[1]),
+                    lambda r: 'ok ' + sim.circ_text(r))
+        elif k == 'insert_circuit':
+            sub = Circuit(2)
+            sub.append(mkop(4, [0]))
+            sub.append(mkop(6, [0, 1]))
+            sub.append(mkop(2, [0]))
+            st = sim.circ_text(sub)
+            attempt(f'insert_circuit {it[1]} {st} '
+                    + ','.join(map(str, it[2])) + ' 0',
+                    f'insert_circuit({it[1]}, <{st}>, {it[2]})',
+                    lambda: c.insert_circuit(it[1], sub, it[2]))
+        elif k == 'renumber':
+            if len(it[1]) != c.num_qudits:
+                continue
+            attempt('renumber ' + ','.join(map(str, it[1])),
+                    f'renumber_qudits({it[1]})',
+                    lambda: c.renumber_qudits(it[1]))
+        elif k == 'compress':
+            attempt('compress', 'compress()', lambda: c.compress())
+        elif k == 'pop_qudit':
+            attempt(f'pop_qudit {it[1]}', f'pop_qudit({it[1]})',
+                    lambda: c.pop_qudit(it[1]))
+        elif k == 'insert_qudit':
+            if c.num_qudits >= 4:
+                continue
+            attempt(f'insert_qudit {it[1]} 2', f'insert_qudit({it[1]}, 2)',
+                    lambda: c.insert_qudit(it[1], 2))
+        elif k == 'unfold':
+            try:
+                o = c[it[1]]
+                if isinstance(o.gate, CircuitGate):
+                    sim.block_gid(o.gate)
+            except (IndexError, TypeError):
+                pass
+            attempt(f'unfold {it[1][0]} {it[1][1]}', f'unfold({it[1]})',
+                    lambda: c.unfold(it[1]))
+        elif k == 'fold':
+            reg = it[1]
+            if any(q >= c.num_qudits for q in reg):
+                continue
+            before = sim.circ_text(c)
+            regt = ' '.join(f'{q} {lo} {hi}' for q, (lo, hi) in reg.items())
+            try:
+                pt = c.fold(reg)
+                sim.block_gid(c[pt].gate)
+                sim.record(f'fold {pt[0]} {pt[1]} {regt} | => '
+                           + sim.circ_text(c), 'ok-rel', c, f'fold({reg})')
+            except ValueError:
+                sim.record(f'unchanged {sim.circ_text(c)}', 'ok', c,
+                           f'fold({reg}) -> ValueError')
+            except INTERNAL + (IndexError, TypeError) as e:
+                sim.internal_error = (f'fold({reg}) on {before}', repr(e)
+                                      + '\n' + traceback.format_exc()[-1500:])
+                sim.record(f'unchanged {before}',
+                           'internal ' + type(e).__name__, c, f'fold({reg})')
+    return sim
+
+
+def menu_worker(args):
+    nq, seqs = args
+    alpha = Alphabet()
+    out = []
+    for j, seq in enumerate(seqs):
+        try:
+            sim = run_menu(alpha, nq, seq)
+            out.append((('menu', nq, tuple(seq)), sim.lines, sim.impl,
+                        sim.calls, sim.internal_error, sim.unitary_bad))
+        except Exception as e:
+            out.append((('menu', nq, tuple(seq)), None, None, None,
+                        ('HARNESS', repr(e) + traceback.format_exc()[-2000:]),
+                        None))
+    return out
+
+
 def timelines_from_text(ct: str) -> list[list[str]] | None:
     """per-qudit op sequences from a canonical circuit text"""
     try:
